@@ -14,22 +14,31 @@ def rule_jsonpath(ctx):
     if len(rets) != 1:
         raise AnalysisError(f'{f.key}: expected one `return processor(<json>)`')
     r = rets[0]
-    conds = pr.control_conditions(r, f.node)
-    d = df.defs(f)
-    ok, why = False, f'the processor is applied under {[norm(t) for t, _b, _p in conds]}'
-    if len(conds) == 1 and conds[0][1] and isinstance(conds[0][0], ast.Compare) and len(conds[0][0].ops) == 1 \
-            and isinstance(conds[0][0].ops[0], ast.Eq):
-        t = conds[0][0]
-        sides = [t.left, t.comparators[0]]
-        const = [x for x in sides if isinstance(x, ast.Constant)]
-        other = [x for x in sides if not isinstance(x, ast.Constant)]
-        if len(const) == 1 and const[0].value == 'application/json' and len(other) == 1:
-            src = other[0]
-            if isinstance(src, ast.Name):
-                vd = d.get(src.id, [])
-                src = vd[0][1] if len(vd) == 1 else src
-            ok = 'Content-Type' in norm(src) and '.headers' in norm(src)
-            why = f'`{norm(other[0])}` is not the Content-Type header of the response'
+    # per return path (nested `if json:` or a guard clause for the refusal): the only decision on the way to the processor
+    # is "the Content-Type header equals application/json"
+    from .. import paths as P
+    ok, why = True, ''
+    seen = 0
+    for pth in P.returns(f.node):
+        if not (isinstance(pth.value, ast.Call) and norm(pth.value.func) == proc):
+            continue
+        seen += 1
+        cs = [(t, pol) for t, pol, _n in pth.conds if isinstance(t, ast.expr)]
+        good = False
+        if len(cs) == 1 and isinstance(cs[0][0], ast.Compare) and len(cs[0][0].ops) == 1 and isinstance(cs[0][0].ops[0], (ast.Eq, ast.NotEq)) \
+                and cs[0][1] == isinstance(cs[0][0].ops[0], ast.Eq):
+            t = cs[0][0]
+            sides = [t.left, t.comparators[0]]
+            const = [x for x in sides if isinstance(x, ast.Constant)]
+            other = [x for x in sides if not isinstance(x, ast.Constant)]
+            if len(const) == 1 and const[0].value == 'application/json' and len(other) == 1:
+                good = 'Content-Type' in norm(other[0]) and '.headers' in norm(other[0])
+                if not good:
+                    why = f'`{norm(other[0])}` is not the Content-Type header of the response'
+        if not good:
+            ok = False
+            why = why or f'the processor is applied under {pth.cond_texts()}'
+    ok = ok and seen >= 1
     ctx.check(ok, 'C18.JSONPATH', ctx.key(f, r, 'every JSON reply is processed'),
               'a reply is handed to the processor exactly when its Content-Type is application/json, whatever the HTTP status',
               why + ': a genuine RPC error (JSON body with a non-200 status) is treated as a refusal and retried for ever instead of '
